@@ -38,6 +38,13 @@ pub assume_specification[ f64::atan2 ](y: f64, x: f64) -> (r: f64) ensures r == 
 pub assume_specification[ f64::to_radians ](x: f64) -> (r: f64) ensures r == frad(x);
 pub assume_specification[ f64::to_degrees ](x: f64) -> (r: f64) ensures r == fdeg(x);
 pub assume_specification[ f64::abs ](x: f64) -> (r: f64) ensures r == fabs(x);
+// further f64 methods a rewrite may introduce: uninterpreted, so that the changed text stays inside the subset and is compared with the stated tree
+pub uninterp spec fn fclamp(x: f64, lo: f64, hi: f64) -> f64;
+pub uninterp spec fn fmin(x: f64, y: f64) -> f64;
+pub uninterp spec fn fmax(x: f64, y: f64) -> f64;
+pub assume_specification[ f64::clamp ](x: f64, lo: f64, hi: f64) -> (r: f64) ensures r == fclamp(x, lo, hi);
+pub assume_specification[ f64::min ](x: f64, y: f64) -> (r: f64) ensures r == fmin(x, y);
+pub assume_specification[ f64::max ](x: f64, y: f64) -> (r: f64) ensures r == fmax(x, y);
 
 pub mod fax {
     use super::*;
@@ -216,8 +223,10 @@ def gen(repo):
     # every module-level f64 constant of hours.rs is re-emitted (so that a refactor introducing a named constant still extracts)
     for m in re.finditer(r"(?m)^(?:pub(?:\([a-z]+\))?\s+)?const\s+([A-Z0-9_]+)\s*:\s*f64\s*=\s*([^;]+);", hsrc):
         out += "pub const %s: f64 = %s;\n" % (m.group(1), m.group(2).strip())
-    ty, val = X.find_const(asrc, "TWO_PI_DEG")
-    out += "pub const TWO_PI_DEG: %s = %s;\n" % (ty, val)
+    X.find_const(asrc, "TWO_PI_DEG")   # anchor
+    # every f64 constant of angle.rs is re-emitted as well (a rewrite may name PI_DEG / RIGHT_ANG_DEG)
+    for m in re.finditer(r"(?m)^(?:pub(?:\([a-z]+\))?\s+)?const\s+([A-Z0-9_]+)\s*:\s*f64\s*=\s*([^;]+);", asrc):
+        out += "pub const %s: f64 = %s;\n" % (m.group(1), m.group(2).strip())
     out = PRELUDE.replace("verus! {\n", "verus! {\n" + out, 1)
     meta_all = {"edits": [], "outlined": []}
     LAT = "f64_from(top_astro_day.coords().latitude)"
@@ -284,7 +293,7 @@ def gen(repo):
     for c in ("KAABA_LATITUDE", "KAABA_LONGITUDE"):
         ty, val = X.find_const(qsrc, c)
         out = out.replace("verus! {\n", "verus! {\npub const %s: %s = %s;\n" % (c, ty, val), 1)
-    tq, meta = X.extract(qsrc, dict(fn="new", rename="qibla_new",
+    tq, meta = X.extract(qsrc, dict(fn="new", rename="qibla_new", opt_neg=True,
         rewrites=[("-> Self", "-> Qibla"), ("Self { coords, degrees }", "Qibla { coords, degrees }"),
                   ("f64::from(coords.latitude)", "f64_from(coords.latitude)"), ("f64::from(coords.longitude)", "f64_from(coords.longitude)")],
         ensures=["r.degrees == qibla_deg(coords.latitude.v, coords.longitude.v)", "r.coords == coords"]))
